@@ -265,6 +265,9 @@ where
         assert!(out_n <= out.len());
 
         input.consume(n);
+        // Only tags of consumed samples. The tail of the window is history for
+        // the next call, and its tags will be seen again then.
+        tags.retain(|t| t.pos() < n);
         if self.deci == 1 {
             out.produce(out_n, &tags);
         } else {
